@@ -158,12 +158,12 @@ def val_equation(b, rel, prefix, digits, signed, tier, core=True):
         // walk the multi-byte branches of the UTF-8 decoder: no verdict in 600 s even for one digit)
         let mut bytes: [u8; %(n)d] = [b'0'; %(n)d];%(sign)s
         let mut k = %(fd)d;
-        let mut want: i32 = 0;
+        let mut want: i64 = 0;
         while k < %(n)d {
             let d: u8 = kani::any();
             kani::assume(d < 10);
             bytes[k] = match d { 0 => b'0', 1 => b'1', 2 => b'2', 3 => b'3', 4 => b'4', 5 => b'5', 6 => b'6', 7 => b'7', 8 => b'8', _ => b'9' };
-            want = want * 10 + d as i32;
+            want = want * 10 + d as i64;
             k += 1;
         }
         if minus { want = -want; }
@@ -171,7 +171,13 @@ def val_equation(b, rel, prefix, digits, signed, tier, core=True):
         // the result is bound and forgotten: letting the temporary drop runs Variant's recursive drop glue (no verdict in 600 s)
         match val(s) {
             Ok(v) => {
-                match &v { Variant::VInteger(got) => assert!(*got == want), _ => assert!(false) }
+                match &v {
+                    // the narrowest type that holds the value
+                    Variant::VInteger(got) => assert!(*got as i64 == want && want >= -32768 && want <= 32767),
+                    Variant::VLong(got) => assert!(*got == want && (want < -32768 || want > 32767) && want >= -2147483648 && want <= 2147483647),
+                    Variant::VDouble(got) => assert!(*got == want as f64 && (want < -2147483648 || want > 2147483647)),
+                    _ => assert!(false),
+                }
                 std::mem::forget(v);
             }
             Err(e) => { std::mem::forget(e); assert!(false); }
@@ -179,6 +185,39 @@ def val_equation(b, rel, prefix, digits, signed, tier, core=True):
         """ % {"n": n, "sign": sign_setup, "fd": first_digit},
           unwind=n + 2, tier=tier, core=core, cost=10 * 3 ** digits, stubs=[("f64::powi", "vk_powi10")],
           bounds="every decimal spelling with exactly %d digits%s" % (digits, " and a leading + or -" if signed else ""),
+          functions=["rusty_basic::interpreter::built_ins::val::val"])
+
+
+def val_boundary(b, rel, prefix, tier="quick"):
+    """VAL around the LONG / DOUBLE boundary: the first eight digits fixed at 21474836, the last two symbolic, optional minus."""
+    b.add(rel, "%s_val_long_boundary" % prefix, """
+        let mut bytes: [u8; 11] = *b"+2147483600";
+        let minus: bool = kani::any();
+        if minus { bytes[0] = b'-'; }
+        let mut want: i64 = 21474836;
+        let mut k = 9usize;
+        while k < 11 {
+            let d: u8 = kani::any();
+            kani::assume(d < 10);
+            bytes[k] = match d { 0 => b'0', 1 => b'1', 2 => b'2', 3 => b'3', 4 => b'4', 5 => b'5', 6 => b'6', 7 => b'7', 8 => b'8', _ => b'9' };
+            want = want * 10 + d as i64;
+            k += 1;
+        }
+        if minus { want = -want; }
+        let s: &str = unsafe { std::str::from_utf8_unchecked(&bytes) };
+        match val(s) {
+            Ok(v) => {
+                match &v {
+                    Variant::VLong(got) => assert!(*got == want && want >= -2147483648 && want <= 2147483647),
+                    Variant::VDouble(got) => assert!(*got == want as f64 && (want < -2147483648 || want > 2147483647)),
+                    _ => assert!(false),
+                }
+                std::mem::forget(v);
+            }
+            Err(e) => { std::mem::forget(e); assert!(false); }
+        }
+        """, unwind=13, tier=tier, cost=60, stubs=[("f64::powi", "vk_powi10")],
+          bounds="the numerals +-21474836dd for every pair of digits dd (both sides of the LONG range)",
           functions=["rusty_basic::interpreter::built_ins::val::val"])
 
 
